@@ -124,9 +124,9 @@ inductive Pc
   /-- `c = true`: the scan runs inside `hazard_pointer_free` -/
   | scanStart (c : Bool)
   | scanHead (c : Bool) (h : Nat)
-  /-- walking: `cap` = max_pointers, `cur` record pointer, `i` next slot, `pl` = plist so far
+  /-- walking: `h` = the head that was read, `cap` = max_pointers, `cur` record pointer, `i` next slot, `pl` = plist so far
       (`index = pl.length`), ghost `walked` = records completely read -/
-  | scanWalk (c : Bool) (cap cur i : Nat) (pl walked : List Nat)
+  | scanWalk (c : Bool) (h cap cur i : Nat) (pl walked : List Nat)
   /-- after the sort: `sp` sorted plist, `todo` = rest of the old retired list -/
   | scanDecide (c : Bool) (sp todo : List Nat)
   | scanKeep (c : Bool) (sp : List Nat) (n : Nat) (todo : List Nat) (v : Nat)
@@ -241,9 +241,9 @@ def stepRdNext (s : St) (t r v : Nat) : Option St :=
   | .joinPushed => if r = t ∧ v = s.next r then some (setPc s t (.joinBump v)) else none
   | .joinBumped cur =>
     if cur ≠ 0 ∧ r = cur - 1 ∧ v = s.next r then some (setPc s t (.joinBump v)) else none
-  | .scanWalk c cap cur i pl walked =>
+  | .scanWalk c h cap cur i pl walked =>
     if cur ≠ 0 ∧ i = s.k ∧ r = cur - 1 ∧ v = s.next r then
-      some (setPc s t (.scanWalk c cap v 0 pl (r :: walked)))
+      some (setPc s t (.scanWalk c h cap v 0 pl (r :: walked)))
     else none
   | _ => none
 
@@ -282,7 +282,7 @@ def stepLdThr (s : St) (t r v : Nat) : Option St :=
       some (setPc s t (if v ≤ s.rc t then .scanStart true else .freeDone))
     else none
   | .scanHead c h =>
-    if r = h - 1 ∧ v = s.thr r then some (setPc s t (.scanWalk c (v / 2) h 0 [] [])) else none
+    if r = h - 1 ∧ v = s.thr r then some (setPc s t (.scanWalk c h (v / 2) h 0 [] [])) else none
   | _ => none
 
 def stepRdRc (s : St) (t r v : Nat) : Option St :=
@@ -297,7 +297,7 @@ def stepWrRc (s : St) (t r v : Nat) : Option St :=
   match s.pc t with
   | .freeRc v0 =>
     if r = t ∧ v = v0 + 1 then some { s with rc := upd s.rc t v, pc := upd s.pc t .freeInc } else none
-  | .scanWalk c _ cur _ pl _ =>
+  | .scanWalk c _ _ cur _ pl _ =>
     if cur = 0 ∧ r = t ∧ v = 0 then
       some { s with rc := upd s.rc t 0, rlist := upd s.rlist t [],
                     pc := upd s.pc t (.scanDecide c (isort pl) (s.rlist t)) }
@@ -319,9 +319,9 @@ def stepReclaim (s : St) (t n : Nat) : Option St :=
 
 def stepRdHp (s : St) (t r i v : Nat) : Option St :=
   match s.pc t with
-  | .scanWalk c cap cur j pl walked =>
+  | .scanWalk c h cap cur j pl walked =>
     if cur ≠ 0 ∧ j < s.k ∧ r = cur - 1 ∧ i = j ∧ v = s.hp r i then
-      some (setPc s t (.scanWalk c cap cur (j + 1) (if v = 0 then pl else pl ++ [v]) walked))
+      some (setPc s t (.scanWalk c h cap cur (j + 1) (if v = 0 then pl else pl ++ [v]) walked))
     else none
   | _ => none
 
@@ -613,7 +613,7 @@ def monitorStep (s : St) (e : Ev) (s' : St) : Option String :=
       | _ => none
     | _ => none
   let m2 := match s'.pc t with
-    | .scanWalk _ cap _ _ pl _ =>
+    | .scanWalk _ _ cap _ _ pl _ =>
       if cap < pl.length then some s!"plist-overflow: index {pl.length} > max_pointers {cap}" else none
     | _ => none
   m1 <|> m2
